@@ -168,14 +168,24 @@ func (b *BoundedBacktracker) reset(state *BacktrackerState, haystackLen int) {
 	state.Generation++
 	// Handle overflow by clearing array (every 65536 searches - rare)
 	if state.Generation == 0 {
-		for i := range state.Visited {
-			state.Visited[i] = 0
-		}
+		clearVisitedCapacity(state)
 		state.Generation = 1
-		vwrap = len(state.Visited) // entries cleared
+		vwrap = cap(state.Visited) // entries cleared
 	}
 	if verifhook.On {
 		verifhook.Emit("btreset", entriesNeeded, vcap, vrealloc, int(state.Generation), vwrap, b.numStates, haystackLen, cap(state.Visited), b.maxVisitedSize)
+	}
+}
+
+// clearVisitedCapacity zeroes the whole allocated visited table, not just the part the
+// current search uses: the table is re-sliced (not cleared) when a shorter input follows
+// a longer one, so entries beyond the current length still hold stamps of earlier
+// searches. If they survived a generation overflow, a later, longer search would take
+// them for "visited in this generation" once the counter reaches the same value again.
+func clearVisitedCapacity(state *BacktrackerState) {
+	full := state.Visited[:cap(state.Visited)]
+	for i := range full {
+		full[i] = 0
 	}
 }
 
@@ -303,11 +313,9 @@ func (b *BoundedBacktracker) SearchAtWithState(haystack []byte, at int, state *B
 		vwrap := 0 // verif: observed by the btbump event
 		// Handle overflow by resetting the array (every 256 searches)
 		if state.Generation == 0 {
-			for i := range state.Visited {
-				state.Visited[i] = 0
-			}
+			clearVisitedCapacity(state)
 			state.Generation = 1
-			vwrap = len(state.Visited) // entries cleared
+			vwrap = cap(state.Visited) // entries cleared
 		}
 		if verifhook.On {
 			verifhook.Emit("btbump", int(state.Generation), vwrap)
